@@ -35,7 +35,7 @@ func H_Prune() {
 	rs := mptlib.NewRounds("C05", "c05", seed, alpha, lmax)
 	for r := 1; r <= R; r++ {
 		txns := rs.ChooseTxns("r", ntx)
-		b, ref, ok := rs.Execute(int64(r), txns)
+		b, ref, ok := rs.Execute(rs.Base+int64(r), txns)
 		if !ok {
 			return
 		}
@@ -43,7 +43,7 @@ func H_Prune() {
 			return
 		}
 		var err error
-		if vp.NoPanic("C05.nopanic", func() { err = rs.PNDB.RecordDeadNodes(rs.Deads[r], int64(r)) }) {
+		if vp.NoPanic("C05.nopanic", func() { err = rs.PNDB.RecordDeadNodes(rs.Deads[r], rs.Base+int64(r)) }) {
 			return
 		}
 		vp.Assert("C05.record-ok", err == nil)
@@ -78,7 +78,7 @@ func H_Prune() {
 	var err error
 	if n < writes {
 		rs.Store.VerifCrashAfter(n)
-		if vp.NoPanic("C05.nopanic", func() { rs.PNDB.PruneBelowVersion(context.Background(), int64(v)) }) {
+		if vp.NoPanic("C05.nopanic", func() { rs.PNDB.PruneBelowVersion(context.Background(), rs.Base+int64(v)) }) {
 			return
 		}
 		rs.Store.VerifNoCrash()
@@ -89,7 +89,7 @@ func H_Prune() {
 		}
 		vp.Cover("C05.crashed")
 	}
-	if vp.NoPanic("C05.nopanic", func() { err = rs.PNDB.PruneBelowVersion(context.Background(), int64(v)) }) {
+	if vp.NoPanic("C05.nopanic", func() { err = rs.PNDB.PruneBelowVersion(context.Background(), rs.Base+int64(v)) }) {
 		return
 	}
 	vp.Assert("C05.prune-ok", err == nil)
